@@ -124,6 +124,8 @@ u8_t runcrypt::verify(size_t fsize)
   if (!header.checkMn())
     return 4;
   header.checkType();
+  if (header.getctype() > 4 || header.gethtype() > 2)
+    return 3;
   resultprint->printctype(header.getctype());
   resultprint->printhtype(header.gethtype());
   u8_t *hash = header.getHmac(64);
